@@ -26,6 +26,7 @@ import (
 	dtlsrrc "github.com/pion/dtls/v3/internal/rrc"
 	dtlsstate "github.com/pion/dtls/v3/internal/state"
 	"github.com/pion/dtls/v3/internal/util"
+	"github.com/pion/dtls/v3/internal/vtrace"
 	"github.com/pion/dtls/v3/pkg/protocol"
 	"github.com/pion/dtls/v3/pkg/protocol/alert"
 	extension13 "github.com/pion/dtls/v3/pkg/protocol/extension/dtls13"
@@ -1013,6 +1014,10 @@ func (c *Conn) nextLocalSequenceNumber(epoch uint16) (uint64, error) {
 		common.LocalSequenceNumber = append(common.LocalSequenceNumber, uint64(0))
 	}
 	seq := atomic.AddUint64(&common.LocalSequenceNumber[epoch], 1) - 1
+	if vtrace.Enabled {
+		vtrace.Emit(c.handshakeConfig, "seq.alloc", "client", common.IsClient, "epoch", int(epoch), "seq", seq,
+			"ok", seq <= recordlayer.MaxSequenceNumber)
+	}
 	if seq > recordlayer.MaxSequenceNumber {
 		// RFC 6347 Section 4.1.0
 		// The implementation must either abandon an association or rehandshake
@@ -1068,6 +1073,10 @@ func (c *Conn) sealRecordContent(
 	generation, err := c.writeTrafficGeneration(epoch)
 	if err != nil {
 		return nil, err
+	}
+	if vtrace.Enabled {
+		vtrace.Emit(c.handshakeConfig, "rec.seal", "client", dtlsstate.CommonState(c.state).IsClient, "epoch", int(epoch),
+			"seq", seq, "ctype", int(contentType), "len", len(plaintext), "gen", int(generation.Generation))
 	}
 
 	header := recordlayer.UnifiedHeader{
@@ -2115,6 +2124,9 @@ func (c *Conn) handleChangeCipherSpecRecord(
 	}
 
 	c.setRemoteEpoch(newRemoteEpoch)
+	if vtrace.Enabled {
+		vtrace.Emit(c.handshakeConfig, "ccs.in", "client", common.IsClient, "epoch", int(newRemoteEpoch))
+	}
 
 	return prepared.markPacketAsValid()
 }
@@ -2131,6 +2143,11 @@ func (c *Conn) handleApplicationDataRecord(
 	}
 
 	isLatestSeqNum := prepared.markPacketAsValid()
+	if vtrace.Enabled {
+		vtrace.Emit(c.handshakeConfig, "app.deliver", "client", dtlsstate.CommonState(c.state).IsClient,
+			"epoch", int(prepared.header.Epoch), "seq", prepared.header.SequenceNumber, "len", len(content.Data),
+			"latest", isLatestSeqNum)
+	}
 	select {
 	case c.decrypted <- content.Data:
 	case <-c.closed.Done():
@@ -2156,6 +2173,11 @@ func (c *Conn) handleRecordContent(
 		}, nil
 	case *alert.Alert:
 		c.log.Tracef("%s: <- %s", srvCliStr(dtlsstate.CommonState(c.state).IsClient), content.String())
+		if vtrace.Enabled {
+			vtrace.Emit(c.handshakeConfig, "alert.in", "client", dtlsstate.CommonState(c.state).IsClient,
+				"level", int(content.Level), "desc", int(content.Description), "epoch", int(prepared.header.Epoch))
+			vtrace.Gate(c.handshakeConfig, "reader.alert")
+		}
 		var responseAlert *alert.Alert
 		if content.Description == alert.CloseNotify {
 			// Respond with a close_notify [RFC5246 Section 7.2.1]
@@ -2275,6 +2297,10 @@ func (c *Conn) recvHandshake() <-chan dtlshandshake.RecvHandshakeState {
 
 func (c *Conn) notify(ctx context.Context, level alert.Level, desc alert.Description) error {
 	common := dtlsstate.CommonState(c.state)
+	if vtrace.Enabled {
+		vtrace.Emit(c.handshakeConfig, "alert.out", "client", common.IsClient, "level", int(level), "desc", int(desc),
+			"epoch", int(common.LocalEpoch()), "enc", c.isHandshakeCompletedSuccessfully())
+	}
 	if level == alert.Fatal && len(common.SessionID) > 0 { //nolint:nestif
 		if common.LocalVersion == protocol.Version1_2 {
 			// According to the RFC, we need to delete the stored session.
@@ -2805,6 +2831,11 @@ func (c *Conn) close(byUser bool) error {
 		c.closed.Close()
 	}
 	c.closeLock.Unlock()
+	if vtrace.Enabled {
+		vtrace.Emit(c.handshakeConfig, "close.enter", "client", dtlsstate.CommonState(c.state).IsClient, "byUser", byUser,
+			"closedByUser", closedByUser, "isClosed", isClosed, "established", c.isHandshakeCompletedSuccessfully())
+		vtrace.Gate(c.handshakeConfig, "close.afterFlag")
+	}
 
 	cancelHandshaker()
 	cancelHandshakeReader()
@@ -2856,6 +2887,10 @@ func (c *Conn) commitLocalKeyUpdate(generation *dtlsstate.TrafficGeneration) err
 
 	state13.TrafficKeys.Install(generation, nil)
 	state13.SetLocalEpoch(generation.Epoch)
+	if vtrace.Enabled {
+		vtrace.Emit(c.handshakeConfig, "ku.commit", "client", state13.IsClient, "epoch", int(generation.Epoch),
+			"gen", int(generation.Generation), "secret", generation.Secret, "prev", current.Secret)
+	}
 
 	return nil
 }
